@@ -55,6 +55,12 @@ def gen_rules(rng):
         if rng.random() < 0.3:
             r["trust_username"] = rng.choice(["yes", "no", "1", "0", "true", "on"])
         rules.append(r)
+    if rng.random() < 0.12:
+        # a rule whose address is no mask at all (a typing error), together with an account nobody has: it never places anybody, and
+        # the rules around it - the one that follows it in name order in particular - are what they are without it
+        nm = rng.choice([x for x in ("A00bad", "M5bad", "b0bad", "Zbad") if x.lower() not in [y["name"].lower() for y in rules]])
+        rules.insert(rng.randrange(len(rules) + 1), {"name": nm, "account": "zzz-nomatch-*", "address": rng.choice(["10.0.0.0/33", "1.2.3", "zz", "1:2:3:zz/16", "10.0.0.0/", "300.1.1.1"]),
+                                                     "class": "never"})
     if rng.random() < 0.2:
         # a plain setting between the rules: not a rule, must not be taken for one
         nm = rng.choice([x for x in ("A0", "note", "mm", "0") if x.lower() not in [y["name"].lower() for y in rules]])
@@ -66,7 +72,7 @@ def edit_rules(rng, rules):
     """An edit of the table as an administrator would make it before a SIGUSR1: mostly values changed in place."""
     import copy
     out = copy.deepcopy(rules)
-    real = [r for r in out if "_plain" not in r]
+    real = [r for r in out if "_plain" not in r and not r["name"].endswith("bad")]
     if not real:
         return gen_rules(rng)
     if rng.random() < 0.1:
